@@ -56,6 +56,7 @@ CONSTANTS
   GMaxCaps,     \* captions / roll-up lines / paint-on segments per behaviour
   GMaxRows,     \* rows (PACs) per caption
   GMaxItems,    \* text items per row
+  GBudget,      \* padding / channel-2 words per behaviour
   GStarts,      \* set of <<df, h, m, s, f>> start time codes (df = TRUE for ';')
   GMids, GSpecials, GExtendeds,  \* sets of mid-row attributes 0..15, special indices 0..15, extended <<group, index>>
   Pick(_)       \* Pick(S) = the members of S the generator branches over: S itself in exhaustive models, one random
@@ -355,7 +356,7 @@ GInit ==
   /\ DInit
   /\ \E st \in Pick(GStarts) : df = st[1] /\ frame = LabelFrames(st[1], <<st[2], st[3], st[4], st[5]>>)
   /\ ph = "start" /\ style = "none" /\ ncap = 0 /\ nrow = 0 /\ nitem = 0 /\ pend = 0 /\ c2 = FALSE
-  /\ sent = <<LineMark>> /\ budget = 2 /\ lastch = FALSE /\ clean = TRUE
+  /\ sent = <<LineMark>> /\ budget = GBudget /\ lastch = FALSE /\ clean = TRUE
 
 GDup == pend # 0 /\ Emit(pend) /\ pend' = 0 /\ UNCHANGED <<ph, style, ncap, nrow, nitem, c2, budget, lastch, clean>>
 
@@ -400,6 +401,7 @@ GPac  == /\ \/ ph = "row"
 
 \* text items; BS and extended characters follow a character ("replace the preceding character")
 GItem == /\ ph = "txt" /\ nitem < GMaxItems
+         /\ cur[2] <= 29                                   \* the row stays inside the 32 columns (an item takes up to 3)
          /\ \/ (\E p \in Pick(GChars) : EmitText(WChars(p[1], p[2]))) /\ lastch' = TRUE
             \/ Has("midrow") /\ (\E a \in Pick(GMids) : EmitCode(WMid(a))) /\ lastch' = TRUE
             \/ Has("special") /\ (\E k \in Pick(GSpecials) : EmitCode(WSpecial(k))) /\ lastch' = TRUE
